@@ -196,6 +196,9 @@ def run(repo: Repo, chk: Check) -> None:
                 continue
             if min(probes) > last:
                 bad.append(f'lowest probe is {min(probes)} > last={last}: changes in ({last}, {min(probes)}] are never examined')
+            if min(probes) < last:
+                bad.append(f'lowest probe is {min(probes)} < last={last}: a change at or before the start of the range is reported as a change inside it '
+                           '(and a level before the first block may be requested)')
             if probes != sorted(probes, reverse=True) or len(set(probes)) != len(probes):
                 bad.append(f'probes not strictly descending: {probes}')
             # expected intervals: adjacent probes whose comparison was False
